@@ -253,20 +253,25 @@ impl<'a, N: Normalizer> Html5Serializer<'a, N> {
                 }
             }
             Text(text) => {
-                // a text node is always a child of an element
-                let parent = self.xot.parent(node).unwrap();
-                let element = self.xot.element(parent).unwrap();
-                let value = if self
+                // a text node is usually a child of an element, but it can also be
+                // a child of a document (in a fragment) or be unattached
+                let parent_element = self
+                    .xot
+                    .parent(node)
+                    .and_then(|parent| self.xot.element(parent));
+                let value = if parent_element.is_none() {
+                    serialize_text((*text).into(), &self.normalizer, false).to_string()
+                } else if self
                     .html5_elements
                     .no_escape_names
-                    .matches(self.xot, element.name())
+                    .matches(self.xot, parent_element.unwrap().name())
                 {
                     serialize_text_no_escape((*text).into(), &self.normalizer).to_string()
-                } else if self.cdata_section_names.contains(&element.name()) {
+                } else if self.cdata_section_names.contains(&parent_element.unwrap().name()) {
                     serialize_cdata((*text).into(), &self.normalizer).to_string()
                 } else if self
                     .html5_elements
-                    .is_html_element(self.xot, element.name())
+                    .is_html_element(self.xot, parent_element.unwrap().name())
                 {
                     serialize_text_html((*text).into(), &self.normalizer).to_string()
                 } else {
